@@ -29,6 +29,7 @@ ASSUMPTIONS = [
 MIN_NONTRIVIAL_FRACTION = 0.2
 RULE += " Added after the seeded rounds: " + 'Cases may carry `pre` (expressions evaluated first by fresh engines: module-level caches); string literals include runs of blanks, tabs, NBSP and other Unicode spaces.'
 RULE += ' String contents are also drawn from arbitrary Unicode (operator look-alikes, typographic quotes, full-width digits, zero-width characters); numeric literals include non-dyadic and extreme floats (0.1, 0.3, 1e16, 1e308, -0.0) so that grouping and intermediate overflow are observable.'
+RULE += " Wide, flat constructs: unparenthesised operator chains, comparison chains, argument lists and literals of 3..120 items (lengths straddle the engine's nesting limit of 50: beyond it a refusal is fine, a different value is not)."
 
 _int = st.one_of(st.integers(-9, 12), st.integers(-50, 50)).map(lambda n: str(n) if n >= 0 else "(%d)" % n)
 # non-dyadic and extreme floats: grouping, evaluation order and intermediate overflow are observable (0.1 + (0.2 + 0.3) != (0.1 + 0.2) + 0.3)
@@ -167,8 +168,35 @@ def _call(draw, depth):
     return "max(%s, %s, %s)" % (x(), x(), x())
 
 
+@st.composite
+def _wide(draw):
+    """wide, flat constructs: long unparenthesised operator chains (Python groups them left to right), long comparison chains, long
+    argument lists and literals - the shapes an evaluator may be tempted to flatten, reorder or batch.  Lengths straddle the
+    engine's nesting limit (50): beyond it a refusal is fine, a different value is not."""
+    n = draw(st.sampled_from([3, 5, 8, 20, 49, 50, 51, 52, 60, 80, 120]))
+    atoms = draw(st.sampled_from([["0.1", "0.2", "0.3", "0.7", "1.1"], ["1e16", "1.0", "-1e16", "1.0"], ["1", "2", "3"], ["0.1"], ["3.3", "1e-320", "1e308", "-1e308"],
+                                  ["'a'", "'b '", "''"], ["[1]", "[]", "[2, 3]"], ["True", "2", "0.5"], ["7", "(-3)", "2"]]))
+    items = [draw(st.sampled_from(atoms)) for _ in range(n)]
+    k = draw(st.integers(0, 8))
+    if k <= 2:
+        return " + ".join(items)
+    if k == 3:
+        op = draw(st.sampled_from(["*", "-", "and", "or", "//", "%"]))
+        return (" %s " % op).join(items)
+    if k == 4:
+        ops = [draw(st.sampled_from(CMP)) for _ in range(n - 1)]
+        return " ".join(x for pair in zip(items, ops + [""]) for x in pair).strip()
+    if k == 5:
+        return "%s(%s)" % (draw(st.sampled_from(["max", "min"])), ", ".join(items))
+    if k == 6:
+        return "%s([%s])" % (draw(st.sampled_from(["sum", "max", "min", "len"])), ", ".join(items))
+    if k == 7:
+        return "(%s) == (%s)" % (" + ".join(items), " + ".join(reversed(items)))
+    return "[%s]" % ", ".join(items)
+
+
 def strategy(tier):
-    expr = st.integers(1, 4).flatmap(lambda d: _any(d))
+    expr = st.integers(0, 11).flatmap(lambda d: _wide() if d == 0 else _any(1 + d % 4))
     # `pre`: other expressions evaluated first (fresh engines, same process) - a result must not depend on what was evaluated before
     pre = st.one_of(st.just([]), st.just([]), st.lists(st.one_of(_num(1), _call(1), _any(2)), min_size=1, max_size=2))
     return st.fixed_dictionaries({"expr": expr, "pathway": st.sampled_from(["auto", "auto", "math", "math", "logic", "logic", "transform"]), "pre": pre})
